@@ -38,6 +38,11 @@ SELF = lp.SELF
 BF = 'Brute_force_solver'
 
 
+def bf_table(repo):
+    """spec.BRUTE_FORCE with the statistic helpers under the names they have in this tree"""
+    return {label: (tier_, repo.actual('Model', helper) if helper else helper, order) for label, (tier_, helper, order) in spec.BRUTE_FORCE.items()}
+
+
 def has_loop(f):
     return any(isinstance(n, (ast.For, ast.While, ast.ListComp, ast.GeneratorExp)) for n in ast.walk(f.node))
 
@@ -120,12 +125,12 @@ def check_results(rep, repo, f):
         return None
     labels = labels_of(full[0][1])
     table = {}
-    for label, (tier_, helper, order) in spec.BRUTE_FORCE.items():
+    for label, (tier_, helper, order) in bf_table(repo).items():
         if label not in labels:
             rep.fail('C07.R6', f.where, 'every documented statistic line is printed', got='no line %r' % label, want=label + ': <value>', construct='missing line ' + label)
             continue
         h = strip_str(labels[label])
-        if h[0] == 'call' and lp.model_attr(h[1]) == '_get_profile_string' and len(h[2]) == 1:
+        if h[0] == 'call' and lp.model_attr(h[1]) == repo.actual('Model', '_get_profile_string') and len(h[2]) == 1:
             if order not in ('gen', 'gre'):
                 rep.fail('C07.R6', f.where, 'only profiles are formatted as profiles', got=show(h), construct='format of ' + label)
             h = h[2][0]
@@ -135,7 +140,7 @@ def check_results(rep, repo, f):
             rep.fail('C07.R6', f.where, 'the line prints an accumulator of the solver unchanged', got=show(h)[:100], want='str(self.<accumulator>)', construct='value of ' + label)
             continue
         table[h[2]] = (label, tier_, helper, order)
-    if len(set(table)) != len(spec.BRUTE_FORCE):
+    if len(set(table)) != len(bf_table(repo)):
         rep.fail('C07.R6', f.where, 'nine distinct accumulators are printed under the nine labels', got=sorted(table), construct='accumulator table')
         return None
     rep.ok('C07.R6', f.where, 'label -> accumulator table (9 lines)', got={v[0]: k for k, v in table.items()})
@@ -427,12 +432,12 @@ def check_fold(rep, repo, f, table, comps):
     check_matching_pairs(rep, repo, gmp)
     # ---- R3: symbolic step ------------------------------------------------------------------------------------
     size_attr = next(k for k, v in table.items() if v[1] == 'size')
-    SIZE_NEW = [CALL(S('len'), [MP]), CALL(A(lp.MODEL, '_get_matching_size'), [MP])]
+    SIZE_NEW = [CALL(S('len'), [MP]), CALL(A(lp.MODEL, repo.actual('Model', '_get_matching_size')), [MP])]
     helpers = {v[2] for v in table.values() if v[2]}
     problems = []
 
     def stat_of(t):
-        if t[0] == 'call' and lp.model_attr(t[1]) in helpers | {'_get_matching_size'} and t[2] == (MP,):
+        if t[0] == 'call' and lp.model_attr(t[1]) in helpers | {repo.actual('Model', '_get_matching_size')} and t[2] == (MP,):
             return lp.model_attr(t[1])
         return None
 
@@ -712,7 +717,7 @@ def check_initial(rep, repo, f, table, init):
                 lst, n = (v[2], v[3]) if v[2][0] == 'list' else (v[3], v[2])
                 if lst != ('list', (C(0),)):
                     n = None
-            empty = v[0] == 'call' and lp.model_attr(v[1]) == '_get_profile' and v[2] == (('list', ()),)
+            empty = v[0] == 'call' and lp.model_attr(v[1]) == repo.actual('Model', '_get_profile') and v[2] == (('list', ()),)
             if empty:
                 rep.ok('C07.R5', f.where, 'initial %s is the profile of the empty matching: all zeros, full length' % label, got=show(v))
                 rep.ok('C07.R7', f.where, 'initial %s (all zeros) is no more %s than any profile' % (label, 'greedy' if order == 'gre' else 'generous'), got=show(v))
@@ -721,7 +726,7 @@ def check_initial(rep, repo, f, table, init):
                 rep.fail('C07.R7', f.where, 'initial %s is the all-zero profile (the least %s one)' % (label, 'greedy' if order == 'gre' else 'generous'), got=show(v)[:100], want='[0] * max rank',
                          construct='initial ' + label)
                 continue
-            is_mr = (n[0] == 'call' and lp.model_attr(n[1]) == '_get_max_rank' and not n[2])
+            is_mr = (n[0] == 'call' and lp.model_attr(n[1]) == repo.actual('Model', '_get_max_rank') and not n[2])
             rep.check(is_mr, 'C07.R5', f.where, 'initial %s has one entry per rank up to the maximum rank, like every profile it is compared with' % label, got=show(v), want='[0] * self.model._get_max_rank()',
                       construct='initial %s length' % label)
             if order == 'gre':
@@ -775,7 +780,7 @@ def dominates_bound(repo, v, kind):
         return True
     if v in (A(S('math'), 'inf'), A(S('sys'), 'maxsize')):
         return True
-    if v[0] == 'call' and lp.model_attr(v[1]) in ('_get_max_lec_abs_diff', '_get_sum_lec_abs_diff', '_get_lec_abs_diffs'):
+    if v[0] == 'call' and lp.model_attr(v[1]) in tuple(repo.actual('Model', x) for x in ('_get_max_lec_abs_diff', '_get_sum_lec_abs_diff', '_get_lec_abs_diffs')):
         return 'the deviation of one particular assignment (%s), which need not be valid and can be smaller than that of every valid matching' % show(v[2][0] if v[2] else v)[:40]
     luq = A(lp.MODEL, 'lec_upper_quotas')
     gm = repo.classes['Model'].get('get_max_lec_upper_quota')
